@@ -42,7 +42,16 @@ class Check(PropertyCheck):
             j, p, m = gen.gen_valid_request(rng, tr, rng.choice(["uniform", "one_job_first"]))
             tr.take(j)
             n_acc += 1
-            lines += [f"disp {j} {p} {m}", "q current_time", "q completed"]
+            lines.append(f"disp {j} {p} {m}")
+            if rng.random() < 0.35 and not tr.done():
+                # read-only queries on arbitrary sub-lists of the ready operations, asked before the time is read:
+                # they must not influence it
+                offs = [sum(len(job) for job in jobs[:k]) for k in range(len(jobs))]
+                ready = [offs[jj] + pp for jj, pp in tr.ready()]
+                sub = rng.sample(ready, rng.randint(1, len(ready)))
+                lines.append(rng.choice([f"q min_start {' '.join(map(str, sub))}", f"q earliest_start {sub[0]}",
+                                         "flt dom ; " + " ".join(map(str, sub)), "flt nio ; " + " ".join(map(str, sub))]))
+            lines += ["q current_time", "q completed"]
         lines += ["q is_complete", "q makespan"]
         meta = {"family": family, "filter": "none" if f is None else "+".join(f) or "empty-composite",
                 "flexible": gen.is_flexible(jobs), "zero_dur": gen.has_zero(jobs), "accepted": n_acc,
@@ -75,6 +84,6 @@ class Check(PropertyCheck):
             prev = ctx.get("completed")
             if prev is not None and not prev <= cur:
                 res.append(("completed-shrank", f"operations {sorted(prev - cur)} were completed and no longer are "
-                            f"after `{scenario.lines[index - 2]}`"))
+                            f"after `{scenario.lines[index - 2]}` / `{scenario.lines[index - 3]}`"))
             ctx["completed"] = cur
         return res
